@@ -135,6 +135,11 @@ def run(ctx):
         if all(q for _, q in ln):
             rows = c04.gap_rows(rng, ln, 0.02)
             pres.append(("msf long names", c04.render_msf(_random.Random(rng.getrandbits(30)), rows)))
+            # blocks of one to four columns: every residue is then the first, or nearly the first, of its row segment
+            rows_s = c04.gap_rows(rng, [("r%d" % k, q) for k, (n_, q) in enumerate(recs)], 0.02)
+            wn = rng.choice([1, 2, 3, 4])
+            pres.append(("clustal blocks of %d columns" % wn, c04.render_clustal(_random.Random(rng.getrandbits(30)), rows_s, width=wn)))
+            pres.append(("msf blocks of %d columns" % wn, c04.render_msf(_random.Random(rng.getrandbits(30)), rows_s, width=wn)))
             pres.append(("clustal long names", c04.render_clustal(_random.Random(rng.getrandbits(30)), rows)))
         arr_sets.append((exp, [q for _, q in recs if q]))
         for tag, txt in pres:
